@@ -273,24 +273,19 @@ fn ki8_sync_then_inflate() {
 }
 
 // KA2 (inflate side) — inflateEnd: the state block goes back to zfree exactly once with the original pointer and opaque.
-static mut IEND_ARENA: [u8; 192] = [0xEE; 192];
-static mut IEND_FREED: usize = 0;
-static mut IEND_FREE_CALLS: u32 = 0;
-static mut IEND_OPAQUE_OK: bool = true;
-const IEND_OPAQUE: usize = 0x5b5b;
-
+pub(crate) struct IArenaCtx {
+    pub arena: [u8; 192],
+    pub freed: usize,
+    pub free_calls: u32,
+}
 unsafe extern "C" fn iza_arena(o: *mut core::ffi::c_void, _items: u32, _size: u32) -> *mut core::ffi::c_void {
-    unsafe {
-        IEND_OPAQUE_OK &= o as usize == IEND_OPAQUE;
-        (core::ptr::addr_of_mut!(IEND_ARENA) as *mut u8).add(5) as *mut core::ffi::c_void
-    }
+    let c = unsafe { &mut *(o as *mut IArenaCtx) };
+    unsafe { c.arena.as_mut_ptr().add(5) as *mut core::ffi::c_void }
 }
 unsafe extern "C" fn izf_arena(o: *mut core::ffi::c_void, p: *mut core::ffi::c_void) {
-    unsafe {
-        IEND_OPAQUE_OK &= o as usize == IEND_OPAQUE;
-        IEND_FREED = p as usize;
-        IEND_FREE_CALLS += 1;
-    }
+    let c = unsafe { &mut *(o as *mut IArenaCtx) };
+    c.freed = p as usize;
+    c.free_calls += 1;
 }
 
 #[kani::proof]
@@ -309,7 +304,9 @@ fn ka2_inflate_end_releases_once() {
         _ => Mode::Mem,
     };
     let mut state = typed_state(&mut win, kani::any::<u8>() & 7, mode);
-    let alloc = Allocator { zalloc: iza_arena, zfree: izf_arena, opaque: IEND_OPAQUE as *mut core::ffi::c_void, _marker: PhantomData };
+    let mut ctx = IArenaCtx { arena: [0xEE; 192], freed: 0, free_calls: 0 };
+    let ctxp = &mut ctx as *mut IArenaCtx;
+    let alloc = Allocator { zalloc: iza_arena, zfree: izf_arena, opaque: ctxp as *mut core::ffi::c_void, _marker: PhantomData };
     let block = alloc.allocate_slice_raw::<u8>(64).unwrap();
     state.allocation_start = block.as_ptr();
     state.total_allocation_size = 64;
@@ -317,8 +314,9 @@ fn ka2_inflate_end_releases_once() {
     strm.alloc = alloc;
     let z = end(&mut strm);
     assert!(z.state.is_null());
-    assert!(unsafe { IEND_FREE_CALLS } == 1 && unsafe { IEND_OPAQUE_OK });
-    assert!(unsafe { IEND_FREED } == unsafe { core::ptr::addr_of!(IEND_ARENA) as usize } + 5);
+    let c = unsafe { &*ctxp };
+    assert!(c.free_calls == 1, "released exactly once");
+    assert!(c.freed == c.arena.as_ptr() as usize + 5, "zfree receives the pointer zalloc returned (through the same opaque handle)");
     kani::cover!(matches!(mode, Mode::Match));
     core::mem::forget(state);
 }
